@@ -1496,4 +1496,113 @@ def coveredMethods : List String :=
 
 def allCovered (ms : List String) : Bool := ms.all (fun m => coveredMethods.contains m)
 
+/-! ## Phase 5: attribute forwarding through chains of wrapping views, `__getattr__` guard, `==` against another length -/
+
+/-- a wrapping dense view (every class of coba/pipes/rows.py that wraps a row), as an operation on the row below -/
+inductive DWrap
+  | head (h : Hdr)
+  | encode (es : List Enc)
+  | keep (idxs : List Nat) (names : Hdr) (sel : List Bool) (len : Nat) (hdr : Option Hdr)
+  | label (ind : Nat) (tipe : Option String)
+  | dropOne (ind : Nat)
+  deriving Repr
+
+def DWrap.app : DWrap → DRow → DRow
+  | .head h, r => .head r h
+  | .encode es, r => .encode r es
+  | .keep a b c d e, r => .keep r a b c d e
+  | .label i t, r => .label r i t
+  | .dropOne i, r => .dropOne r i
+
+/-- the view has no `headers` slot / property of its own: the attribute is answered by `__getattr__`, i.e. by the row below
+(EncodeDense, LabelDense, and a KeepDense built over a header-less row: `headers=None` is not stored) -/
+def DWrap.transparent : DWrap → Bool
+  | .encode _ => true
+  | .label _ _ => true
+  | .keep _ _ _ _ none => true
+  | _ => false
+
+/-- a chain of wrapping views put around `r`, innermost first -/
+def wrapD (ws : List DWrap) (r : DRow) : DRow := ws.foldl (fun r w => w.app r) r
+
+inductive SWrap
+  | head (fwd inv : KMap)
+  | encode (enc : List (Key × Enc)) (nsp : List Key)
+  | drop (ds : List Key)
+  | label (key : Key) (tipe : Option String)
+  deriving Repr
+
+def SWrap.app : SWrap → SRow → SRow
+  | .head f i, r => .head r f i
+  | .encode e n, r => .encode r e n
+  | .drop ds, r => .drop r ds
+  | .label k t, r => .label r k t
+
+/-- no `_inv` slot of its own (EncodeSparse, DropSparse, LabelSparse): `_inv` is answered by `__getattr__` -/
+def SWrap.transparent : SWrap → Bool
+  | .head _ _ => false
+  | _ => true
+
+def wrapS (ws : List SWrap) (r : SRow) : SRow := ws.foldl (fun r w => w.app r) r
+
+/-- `EncodeRows({}).filter` applied `d` times on top of a dense row (each time an EncodeDense with identity encoders, built from the
+row it is given): the probe the harness uses to look at `headers` / `missing` through 1, 2, 3 extra wrapping views -/
+def probeD : Nat → DRow → DRow
+  | 0, r => r
+  | d + 1, r => probeD d (.encode r (encsOf [] r))
+
+/-- `EncodeRows({}).filter` applied `d` times on top of a sparse row (an EncodeSparse without encoders) -/
+def probeS : Nat → SRow → SRow
+  | 0, r => r
+  | d + 1, r => probeS d (.encode r [] (nspOf []))
+
+/-- the guard of `Dense/Dense_/Sparse/Sparse_.__getattr__`: `if attr == '_row': raise AttributeError(attr)`, everything else is
+`getattr(self._row, attr)`.  `(operator, constant)` as the translator extracts it (`Generated/C13Methods.lean`, `getattrGuards`). -/
+def forwardGuard : String × String := ("Eq", "_row")
+
+/-- is the attribute forwarded to `_row` by `__getattr__` (every attribute except `_row` itself; in particular `_inv`, `_fwd`, `headers`, `missing`,
+`feats`, `label`, `tipe`) -/
+def forwarded (attr : String) : Bool := attr != forwardGuard.2
+
+/-- the four base classes of the row views carrying `__getattr__` / `__eq__` / `copy` -/
+def baseClasses : List String := ["Dense", "Dense_", "Sparse", "Sparse_"]
+
+/-- per concrete row-view class of coba/pipes/rows.py: does it define `__eq__`, `__len__`, `__iter__`, `__getattr__` itself
+(`__eq__` and `__getattr__` never: equality and forwarding are the base classes'; `__len__` / `__iter__` always) -/
+def protocolTable : List (String × Bool × Bool × Bool × Bool) :=
+  ["LazyDense", "LazySparse", "HeadDense", "HeadSparse", "EncodeDense", "EncodeSparse", "DropOne", "KeepDense", "DropSparse",
+   "LabelDense", "LabelSparse"].map (fun c => (c, false, true, true, false))
+
+/-- the `zip_longest`-style comparison that does NOT look at the lengths (the shorter side is padded with `None`): what `==` must not be -/
+def padZip : List Val → List Val → List (Val × Val)
+  | [], ys => ys.map (fun y => (Val.none, y))
+  | x :: xs, [] => (x, .none) :: padZip xs []
+  | x :: xs, y :: ys => (x, y) :: padZip xs ys
+
+def eqPadded (xs o : List Val) : Bool := (padZip xs o).all (fun p => pyEq p.1 p.2)
+
+/-- DropRows with the row predicate evaluated on the column-dropped VIEW instead of on the given row (what the filter must not do) -/
+def dropOnView (cols : List Key) (pred : Option Pred) (r : DRow) : Res (Option DRow) :=
+  match applyD (.drop cols none) r with
+  | .ok (some v) => (match evalPredD pred v with | .error e => .error e | .ok false => .ok none | .ok true => .ok (some v))
+  | x => x
+
+def dropOnViewS (cols : List Key) (pred : Option Pred) (r : SRow) : Res (Option SRow) :=
+  match applyS (.drop cols none) r with
+  | .ok (some v) => (match evalPredS pred v with | .error e => .error e | .ok false => .ok none | .ok true => .ok (some v))
+  | x => x
+
+/-- the filter dropped the row / kept a row (as Booleans, for statements about concrete tables) -/
+def rowDropped {α} : Res (Option α) → Bool
+  | .ok none => true
+  | _ => false
+
+def rowKept {α} : Res (Option α) → Bool
+  | .ok (some _) => true
+  | _ => false
+
+def rowRaised {α} : Res (Option α) → Bool
+  | .error _ => true
+  | _ => false
+
 end Coba.C13
